@@ -5,3 +5,4 @@ pub mod numtext;
 pub mod report;
 pub mod fmodel;
 pub mod refparse;
+pub mod guardbuf;
